@@ -127,6 +127,22 @@ static void world_timer_fn(void *c)
 	child_dies(P_STATUS_EXITED(3));
 }
 
+void sxh_stop_child(void *c)
+{
+	if (child_alive) {
+		sx_cover("popen.child-stopped");
+		p_child_report(child_pid, P_STATUS_STOPPED(SIGSTOP));
+	}
+}
+
+void sxh_cont_child(void *c)
+{
+	if (child_alive) {
+		sx_cover("popen.child-continued");
+		p_child_report(child_pid, P_STATUS_CONTINUED);
+	}
+}
+
 void sx_on_quiescent(void)
 {
 	sx_fail("C19.loop-stuck-child-not-terminated-or-objects-not-released");
@@ -138,7 +154,7 @@ void sx_main(void)
 	int i;
 
 	for_read = (int)sx_opt("read", 1);
-	plan = sx_choose(8);
+	plan = sx_choose(9);	/* 8: stopped and continued before the close, then only SIGKILL ends it */
 	close_when = sx_choose(3);
 	p_kill_hook = on_kill;
 	p_exec_hook = on_exec;
@@ -175,6 +191,21 @@ void sx_main(void)
 	if (plan == 0) {
 		sx_cover("popen.child-exits-at-once");
 		child_dies(P_STATUS_EXITED(0));
+	}
+	if (plan == 8) {
+		/* job control: the child is stopped and continued while the request is open */
+		static struct iv_timer stop_t, cont_t;
+		extern void sxh_stop_child(void *), sxh_cont_child(void *);
+		IV_TIMER_INIT(&stop_t);
+		stop_t.expires.tv_sec = k_now.sec;
+		stop_t.expires.tv_nsec = 300000000;
+		stop_t.handler = sxh_stop_child;
+		iv_timer_register(&stop_t);
+		IV_TIMER_INIT(&cont_t);
+		cont_t.expires.tv_sec = k_now.sec;
+		cont_t.expires.tv_nsec = 600000000;
+		cont_t.handler = sxh_cont_child;
+		iv_timer_register(&cont_t);
 	}
 	if (plan == 7) {
 		IV_TIMER_INIT(&world_timer);
